@@ -19,7 +19,7 @@ ASSUMPTIONS = ["value form only for games that are stopping with zero-reward abs
                "scope with pruning: states reachable from state 0 in the conditioned game; without: all states",
                "band |rew - V| <= 1e-6*T_max(s) + 1e-9*max(1,|V|)"]
 TIMEOUT = 1800
-TABLE = [("G-ACY", 700), ("G-CYC", 700), ("G-SLOW", 200), ("G-DEAD", 700), ("G-LEX", 350), ("G-TIE", 200), ("G-TIEC", 200), ("G-TINYB", 400), ("G-RNEAR", 100), ("G-AUXFAST", 40)]
+TABLE = [("G-ACY", 700), ("G-CYC", 700), ("G-SLOW", 200), ("G-DEAD", 700), ("G-LEX", 350), ("G-TIE", 200), ("G-TIEC", 200), ("G-TINYB", 400), ("G-RNEAR", 100), ("G-AUXFAST", 40), ("G-DUPL", 300)]
 
 
 def plan(tier, seed):
@@ -80,6 +80,18 @@ def decide(gd, idx, cls, via_run_games=False):
                     problems.append({"problem": "run_games reports different rewards than solve()", "mode": "run_games"})
                 if outs[False].status == "ok" and rr["g_no_prune"]["rewards"] != outs[False].result[2]:
                     problems.append({"problem": "run_games (no prune) reports different rewards than solve()", "mode": "run_games"})
+    if idx % 3 == 0 and outs[True].status == "ok" and outs[False].status == "ok":
+        tad = monitors.mods()["tad"]
+        desc = games.to_solver(gd)
+        sg = tad.StochasticGame(desc["rewards"], desc["players"], desc["transition_list"], desc["final_states"], prune_states=True)
+        lim = sc.limit_for(an)
+        for prune in (True, False):
+            o = monitors.observed_solve(desc, prune, lim, sg=sg)
+            res["stats"]["same_object_solves"] = res["stats"].get("same_object_solves", 0) + 1
+            if o.status == "ok" and o.result[2] != outs[prune].result[2]:
+                problems.append({"mode": "same-object prune=%s" % prune, "state": None,
+                                 "problem": "expected rewards differ when the same game object is solved again in the other mode",
+                                 "got": o.result[2], "fresh": outs[prune].result[2]})
     if not compared and not problems:
         return sc.skipped(idx, "no solvable mode")
     res["nontrivial"] = nontrivial
